@@ -384,6 +384,9 @@ impl<'p> CoroutinePool<'p> {
                         std::cmp::Ordering::Equal | std::cmp::Ordering::Greater => {
                             pool.blocker.clone().block(Duration::from_millis(1));
                             pool.reset_pop_fail_times();
+                            // go back to the scheduler, otherwise a single idle core worker
+                            // polls here forever and the scheduling pass never ends
+                            suspender.suspend();
                         }
                     }
                 }
